@@ -13,25 +13,48 @@
 // SUPPORTED SUBSET (anything else: error with file:line, exit status 2, no output file):
 //
 //	types       uint8/16/32/64, int8/16/32/64, int, uint (64 bit), named integer types, bool,
-//	            [N]byte arrays (can.Data), named structs whose USED fields have these types,
+//	            float64, float32 (values, constants, conversions; arithmetic on float64 only),
+//	            [N]byte arrays (can.Data), []byte (contents only, see "slices" below), slices of any
+//	            other element type reduced to their LENGTH (only len(x)), string (constants, locals,
+//	            results; no operations), go/types.Type / *go/types.Basic values obtained as
+//	            types.Typ[kind] (reduced to the kind), named structs whose USED fields have these
+//	            types - including fields promoted through embedded structs (x.f = x.E.f) -,
 //	            pointers to such arrays/structs as parameters/receivers only, `error` results
-//	functions   at most one result; a function without result must write through exactly one
-//	            pointer parameter and is translated to a function returning that parameter's final
-//	            value; a function with a result must not write through pointers; no recursion
+//	functions   any number of results (several results = a tuple); a function may write through at
+//	            most ONE pointer parameter: without results it is translated to a function returning
+//	            that parameter's final value, with results to one returning (that value, results...);
+//	            only functions with exactly one result and no written pointer can be CALLED in an
+//	            expression, only result-less ones as a statement; no recursion; unnamed / blank
+//	            parameters are kept
 //	statements  x := e, x = e, x op= e, x++, x--, `var x T`, `var x T = e` on locals;
 //	            a[i] = e, a[i] op= e, s.f = e, s.f op= e (functional update of arrays / records);
 //	            if / else if / else (with init statement), switch with or without tag (constant or
 //	            non-constant cases, default anywhere, no fallthrough/break), return, nested blocks,
-//	            calls of whitelisted result-less functions as statements
-//	expressions constants (folded by go/types), locals, parameters, + - * / % (divisor: non-zero
+//	            calls of whitelisted result-less functions as statements;
+//	            nlenc.PutUint8/16/32/64 / PutInt32(b[lo:hi], v) and copy(dst, src) as statements
+//	expressions constants (folded by go/types; floats printed as the IEEE bit pattern of the rounded
+//	            value; strings as byte lists), locals, parameters, + - * / % (divisor: non-zero
 //	            constant) << >> (count: unsigned type or constant) & | ^ &^, unary - ^ ! +,
-//	            == != < <= > >= on integers, == != on bools, && ||, conversions between integer
-//	            types, a[i], s.f, struct literals with keyed fields, calls of whitelisted
-//	            functions/methods, fmt.Errorf(...) (= non-nil error), nil (error)
+//	            == != < <= > >= on integers and on float64, + - * / and unary - on float64,
+//	            == != on bools, && ||, conversions between integer types, integer -> float64,
+//	            float64 <-> float32, a[i], s.f, struct literals with keyed fields, calls of
+//	            whitelisted functions/methods, fmt.Errorf(...) (= non-nil error), nil (error or
+//	            []byte result), len(x), make([]byte, const), b[lo:hi] with constant bounds,
+//	            types.Typ[k], the library functions math.Max/Min/IsNaN/Float32bits/Float32frombits/
+//	            Float64bits/Float64frombits and nlenc.Uint8/Uint16/Uint32/Uint64/Int32, and the
+//	            reinterpreting load *(*T)(unsafe.Pointer(&x)) of a local x for (x's type -> T) in
+//	            uint64->float32, uint32->float32, uint64->float64, float32->uint32, float64->uint64
+//	slices      no aliasing: a []byte LOCAL can only be bound to make(...); stores (b[i] = v,
+//	            nlenc.PutXxx(b[lo:hi], v), copy(b[lo:hi], src)) are accepted only when b is such a
+//	            local (or, for copy, an array l-value) and are printed as functional updates of b;
+//	            a []byte parameter can be read, sliced, passed to readers and returned, never
+//	            written; nlenc readers/writers on a constant sub-slice of the wrong width are rejected
 //
 // Every integer operation is emitted at the static type go/types reports for that expression,
-// against the operators of coq/theories/Translate/GoSem.v (see that file's header for the reading
-// of Go's semantics and for what is trusted).
+// against the operators of coq/theories/Translate/GoSem.v, every floating-point operation against
+// those of coq/theories/Translate/GoSemFloat.v (see those files' headers for the reading of Go's
+// semantics and for what is trusted). The packages are loaded for GOOS=linux GOARCH=amd64 (build
+// tags, unsafe.Sizeof constants).
 package main
 
 import (
@@ -40,8 +63,10 @@ import (
 	"go/constant"
 	"go/token"
 	"go/types"
+	"math"
 	"os"
 	"path/filepath"
+	"regexp"
 	"runtime"
 	"sort"
 	"strings"
@@ -85,6 +110,30 @@ var whitelist = []struct{ pkg, recv, name string }{
 	{"pkg/descriptor", "Signal", "MarshalUnsigned"},
 	{"pkg/descriptor", "Signal", "MarshalSigned"},
 	{"pkg/descriptor", "Signal", "MarshalBool"},
+	{"pkg/descriptor", "Signal", "MinFloat"},
+	{"pkg/descriptor", "Signal", "MaxFloat"},
+	{"pkg/descriptor", "Signal", "SaturatedCastFloat"},
+	{"pkg/descriptor", "Signal", "ToPhysical"},
+	{"pkg/descriptor", "Signal", "FromPhysical"},
+	{"pkg/descriptor", "Signal", "UnmarshalPhysical"},
+	{"pkg/descriptor", "Signal", "UnmarshalFloat"},
+	{"pkg/descriptor", "Signal", "MarshalFloat"},
+	{"internal/generate", "", "hasPhysicalRepresentation"},
+	{"internal/generate", "", "hasCustomType"},
+	{"internal/generate", "", "signalPrimitiveType"},
+	{"internal/generate", "", "signalPrimitiveSuperType"},
+	{"internal/generate", "", "signalSuperType"},
+	{"pkg/candevice", "ifInfoMsg", "marshalBinary"},
+	{"pkg/candevice", "ifInfoMsg", "unmarshalBinary"},
+	{"pkg/candevice", "BitTiming", "marshalBinary"},
+	{"pkg/candevice", "BitTiming", "unmarshalBinary"},
+	{"pkg/candevice", "BitTimingConst", "unmarshalBinary"},
+	{"pkg/candevice", "Clock", "unmarshalBinary"},
+	{"pkg/candevice", "CtrlMode", "marshalBinary"},
+	{"pkg/candevice", "CtrlMode", "unmarshalBinary"},
+	{"pkg/candevice", "BusErrorCounters", "unmarshalBinary"},
+	{"pkg/candevice", "Stats", "unmarshalBinary"},
+	{"pkg/socketcan", "", "scanFrames"},
 	{"pkg/socketcan", "frame", "encodeFrame"},
 	{"pkg/socketcan", "frame", "decodeFrame"},
 	{"pkg/socketcan", "frame", "isExtended"},
@@ -108,6 +157,8 @@ type translator struct {
 	sorder  []*structInfo
 	names   map[string]string // Coq global name -> what owns it
 	cur     *fn               // function being processed (for messages)
+
+	usesFloat bool // a float type was classified: Translated.v imports Translate.GoSemFloat
 }
 
 func (t *translator) failf(pos token.Pos, format string, a ...interface{}) {
@@ -137,6 +188,11 @@ const (
 	kArray
 	kStruct
 	kErr
+	kFloat // float64 / float32 (bits = 64 / 32); semantics: Translate/GoSemFloat.v
+	kBytes // []byte: a list of bytes (nil = empty)
+	kLen   // a slice whose elements are outside the subset: only its length is kept (len(x))
+	kString
+	kBasicTy // go/types.Type values obtained as types.Typ[kind]: the kind
 )
 
 type gtype struct {
@@ -159,6 +215,9 @@ type structInfo struct {
 
 func (t *translator) classify(pos token.Pos, typ types.Type) gtype {
 	if p, ok := typ.(*types.Pointer); ok {
+		if n, ok := p.Elem().(*types.Named); ok && n.Obj().Pkg() != nil && n.Obj().Pkg().Path() == "go/types" && n.Obj().Name() == "Basic" {
+			return gtype{k: kBasicTy} // only ever obtained as types.Typ[kind]
+		}
 		g := t.classify(pos, p.Elem())
 		if g.ptr || (g.k != kArray && g.k != kStruct) {
 			t.failf(pos, "pointer type %s is outside the subset", typ)
@@ -190,10 +249,27 @@ func (t *translator) classify(pos token.Pos, typ types.Type) gtype {
 			return gtype{k: kInt, bits: 32, signed: true}
 		case types.Int64, types.Int:
 			return gtype{k: kInt, bits: 64, signed: true}
+		case types.Float64:
+			t.usesFloat = true
+			return gtype{k: kFloat, bits: 64}
+		case types.Float32:
+			t.usesFloat = true
+			return gtype{k: kFloat, bits: 32}
+		case types.String:
+			return gtype{k: kString}
 		}
 	case *types.Array:
 		if b, ok := u.Elem().Underlying().(*types.Basic); ok && b.Kind() == types.Uint8 {
 			return gtype{k: kArray, n: u.Len()}
+		}
+	case *types.Slice:
+		if b, ok := u.Elem().Underlying().(*types.Basic); ok && b.Kind() == types.Uint8 {
+			return gtype{k: kBytes}
+		}
+		return gtype{k: kLen}
+	case *types.Interface:
+		if n, ok := typ.(*types.Named); ok && n.Obj().Pkg() != nil && n.Obj().Pkg().Path() == "go/types" && n.Obj().Name() == "Type" {
+			return gtype{k: kBasicTy}
 		}
 	case *types.Struct:
 		if n, ok := typ.(*types.Named); ok {
@@ -233,8 +309,36 @@ func (g gtype) coq() string {
 		return "data"
 	case kStruct:
 		return g.st.coq
+	case kFloat:
+		return fmt.Sprintf("go_f%d", g.bits)
+	case kBytes:
+		return "go_bytes"
+	case kLen:
+		return "go_len"
+	case kString:
+		return "go_string"
+	case kBasicTy:
+		return "go_basic_type"
 	}
 	return "err"
+}
+
+// same: identical types of the subset (pointer-ness aside).
+func (g gtype) same(h gtype) bool {
+	if g.k != h.k {
+		return false
+	}
+	switch g.k {
+	case kInt:
+		return g.bits == h.bits && g.signed == h.signed
+	case kFloat:
+		return g.bits == h.bits
+	case kArray:
+		return g.n == h.n
+	case kStruct:
+		return g.st == h.st
+	}
+	return true
 }
 
 func (t *translator) zero(pos token.Pos, g gtype) string {
@@ -247,6 +351,16 @@ func (t *translator) zero(pos token.Pos, g gtype) string {
 		return fmt.Sprintf("(data_zero %d)", g.n)
 	case kErr:
 		return "err_nil"
+	case kFloat:
+		return fmt.Sprintf("(go_f%d_const 0)", g.bits)
+	case kBytes:
+		return "bytes_nil"
+	case kLen:
+		return "0"
+	case kString:
+		return "[]"
+	case kBasicTy:
+		t.failf(pos, "zero value of go/types.Type")
 	}
 	// struct: only meaningful once the used-field set is complete (phase 2)
 	var parts []string
@@ -274,7 +388,8 @@ type fn struct {
 	key, coq, display string
 	d                 *fnDecl
 	params            []*param // receiver first
-	res               *gtype   // nil: no result
+	res               *gtype   // nil: no result; otherwise the first result
+	results           []gtype  // all results
 	mut               *param   // pointer parameter written through, or nil
 	state             int      // 1 = being analysed, 2 = analysed
 	text              string
@@ -375,6 +490,8 @@ func rootIdent(e ast.Expr) *ast.Ident {
 			e = x.X
 		case *ast.IndexExpr:
 			e = x.X
+		case *ast.SliceExpr:
+			e = x.X
 		case *ast.SelectorExpr:
 			e = x.X
 		case *ast.Ident:
@@ -418,9 +535,8 @@ func (t *translator) analyse(key string, from token.Pos) *fn {
 		t.failf(d.decl.Pos(), "variadic or generic function")
 	}
 	add := func(v *types.Var) {
-		if v.Name() == "" || v.Name() == "_" {
-			t.failf(v.Pos(), "unnamed parameter")
-		}
+		// (an unnamed or blank parameter cannot be mentioned by the body; it stays a parameter of the
+		// translated function)
 		f.params = append(f.params, &param{v: v, g: t.classify(v.Pos(), v.Type())})
 	}
 	if r := sig.Recv(); r != nil {
@@ -434,10 +550,8 @@ func (t *translator) analyse(key string, from token.Pos) *fn {
 			t.failf(p.v.Pos(), "parameter of type error")
 		}
 	}
-	switch sig.Results().Len() {
-	case 0:
-	case 1:
-		rv := sig.Results().At(0)
+	for i := 0; i < sig.Results().Len(); i++ {
+		rv := sig.Results().At(i)
 		if rv.Name() != "" {
 			t.failf(rv.Pos(), "named result")
 		}
@@ -445,9 +559,10 @@ func (t *translator) analyse(key string, from token.Pos) *fn {
 		if g.ptr {
 			t.failf(d.decl.Type.Results.Pos(), "pointer result")
 		}
-		f.res = &g
-	default:
-		t.failf(d.decl.Type.Results.Pos(), "more than one result")
+		f.results = append(f.results, g)
+	}
+	if len(f.results) > 0 {
+		f.res = &f.results[0]
 	}
 	info := d.pkg.TypesInfo
 	paramOf := func(id *ast.Ident) *param {
@@ -485,7 +600,9 @@ func (t *translator) analyse(key string, from token.Pos) *fn {
 			noteWrite(x.X)
 		case *ast.SelectorExpr:
 			if sel, ok := info.Selections[x]; ok && sel.Kind() == types.FieldVal {
-				t.useField(x.Pos(), sel.Recv(), sel.Obj().(*types.Var), len(sel.Index()))
+				for _, st := range t.fieldSteps(x.Pos(), sel) {
+					st.st.used[st.fld.Name()] = true
+				}
 			}
 		case *ast.CompositeLit:
 			tv := info.Types[x]
@@ -508,12 +625,33 @@ func (t *translator) analyse(key string, from token.Pos) *fn {
 			if tv, ok := info.Types[x.Fun]; ok && tv.IsType() {
 				return true
 			}
+			if b := builtinOf(info, x); b != "" {
+				switch b {
+				case "len", "make":
+				case "copy":
+					if len(x.Args) == 2 {
+						noteWrite(x.Args[0])
+					}
+				default:
+					t.failf(x.Pos(), "call of the builtin %s", b)
+				}
+				return true
+			}
 			callee := calleeOf(info, x)
 			if callee == nil {
-				t.failf(x.Pos(), "call of a builtin, a function value or an interface method")
+				t.failf(x.Pos(), "call of a function value or an interface method")
 			}
 			if isErrorf(callee) {
 				return false // arguments are ignored
+			}
+			if _, ok := putIntrinsicOf(callee); ok {
+				if len(x.Args) == 2 {
+					noteWrite(x.Args[0])
+				}
+				return true
+			}
+			if _, ok := intrinsicOf(callee); ok {
+				return true // semantics in GoSem*.v; the arguments are ordinary expressions
 			}
 			g := t.analyse(funcKey(callee), x.Pos())
 			if g.mut != nil {
@@ -533,9 +671,8 @@ func (t *translator) analyse(key string, from token.Pos) *fn {
 	for p := range mutated {
 		f.mut = p
 	}
-	if f.mut != nil && f.res != nil {
-		t.failf(mutated[f.mut], "a function with a result writes through pointer parameter %s", f.mut.v.Name())
-	}
+	// a function with results that also writes through a pointer parameter returns the pair
+	// (final value of that parameter, results...)
 	if f.mut == nil && f.res == nil {
 		t.failf(d.decl.Pos(), "function without result that writes through no pointer parameter (no observable effect in the subset)")
 	}
@@ -544,15 +681,41 @@ func (t *translator) analyse(key string, from token.Pos) *fn {
 	return f
 }
 
-func (t *translator) useField(pos token.Pos, recv types.Type, fld *types.Var, depth int) {
-	if depth != 1 {
-		t.failf(pos, "promoted (embedded) field %s", fld.Name())
+// fieldSteps: the chain of (struct, field) steps of a field selection x.f, including the implicit
+// steps through embedded struct fields (x.f = x.Emb.f).
+type fieldStep struct {
+	st  *structInfo
+	fld *types.Var
+}
+
+func (t *translator) fieldSteps(pos token.Pos, sel *types.Selection) []fieldStep {
+	cur := sel.Recv()
+	var steps []fieldStep
+	for i, idx := range sel.Index() {
+		if p, ok := cur.(*types.Pointer); ok {
+			if i != 0 {
+				t.failf(pos, "selection through an embedded pointer")
+			}
+			cur = p.Elem()
+		}
+		g := t.classify(pos, cur)
+		if g.k != kStruct {
+			t.failf(pos, "field selection on %s", cur)
+		}
+		fld := g.st.st.Field(idx)
+		steps = append(steps, fieldStep{g.st, fld})
+		cur = fld.Type()
 	}
-	g := t.classify(pos, recv)
-	if g.k != kStruct {
-		t.failf(pos, "field selection on %s", recv)
+	return steps
+}
+
+func builtinOf(info *types.Info, call *ast.CallExpr) string {
+	if id, ok := ast.Unparen(call.Fun).(*ast.Ident); ok {
+		if b, ok := info.Uses[id].(*types.Builtin); ok {
+			return b.Name()
+		}
 	}
-	g.st.used[fld.Name()] = true
+	return ""
 }
 
 // callArgs returns the argument expressions of a call in the order of g.params (receiver first).
@@ -632,6 +795,9 @@ func (c *fctx) constant(e ast.Expr, v constant.Value) string {
 		return "false"
 	case constant.Int, constant.Float:
 		g := c.typeOf(e)
+		if g.k == kFloat {
+			return c.t.floatConst(e.Pos(), g, v)
+		}
 		if g.k != kInt {
 			c.t.failf(e.Pos(), "numeric constant of non-integer type")
 		}
@@ -644,16 +810,254 @@ func (c *fctx) constant(e ast.Expr, v constant.Value) string {
 			return "(" + s + ")"
 		}
 		return s
+	case constant.String:
+		if g := c.typeOf(e); g.k != kString {
+			c.t.failf(e.Pos(), "string constant of non-string type")
+		}
+		return stringLit(constant.StringVal(v))
 	}
 	c.t.failf(e.Pos(), "constant %s of a kind outside the subset", v.ExactString())
 	panic("unreachable")
+}
+
+// stringLit: a Go string as the list of its bytes, with the text as a comment.
+func stringLit(v string) string {
+	var parts []string
+	for i := 0; i < len(v); i++ {
+		parts = append(parts, fmt.Sprint(v[i]))
+	}
+	note := ""
+	if ok, _ := regexp.MatchString(`^[A-Za-z0-9_ .,:/-]*$`, v); ok {
+		note = " (* \"" + v + "\" *)"
+	}
+	return "[" + strings.Join(parts, "; ") + "]" + note
+}
+
+// floatConst: the IEEE bit pattern of a constant of type float64 / float32. go/types has already
+// checked representability and rounded the typed constant (round to nearest even); Float64Val /
+// Float32Val give that nearest value. Go constants have no negative zero, no infinity, no NaN.
+func (t *translator) floatConst(pos token.Pos, g gtype, v constant.Value) string {
+	fv := constant.ToFloat(v)
+	if fv.Kind() != constant.Float {
+		t.failf(pos, "constant %s cannot be read as a floating-point number", v.ExactString())
+	}
+	if g.bits == 64 {
+		f, _ := constant.Float64Val(fv)
+		if math.IsInf(f, 0) || math.IsNaN(f) {
+			t.failf(pos, "constant %s is not a finite float64", v.ExactString())
+		}
+		if f == 0 {
+			f = 0 // +0: an underflowing negative constant still is the constant 0
+		}
+		return fmt.Sprintf("(go_f64_const 0x%016x)", math.Float64bits(f))
+	}
+	f, _ := constant.Float32Val(fv)
+	if math.IsInf(float64(f), 0) || f != f {
+		t.failf(pos, "constant %s is not a finite float32", v.ExactString())
+	}
+	if f == 0 {
+		f = 0
+	}
+	return fmt.Sprintf("(go_f32_const 0x%08x)", math.Float32bits(f))
+}
+
+// intrinsics: library functions with a fixed reading in GoSem*.v (part of the trusted base).
+type intrinsic struct {
+	coq      string
+	params   []gtype
+	res      gtype
+	sliceLen int64 // > 0: the (single) []byte argument must have exactly this length
+}
+
+var (
+	gF64  = gtype{k: kFloat, bits: 64}
+	gF32  = gtype{k: kFloat, bits: 32}
+	gU32  = gtype{k: kInt, bits: 32}
+	gU64  = gtype{k: kInt, bits: 64}
+	gBool = gtype{k: kBool}
+	gByts = gtype{k: kBytes}
+)
+
+const nlencPath = "github.com/mdlayher/netlink/nlenc"
+
+// putIntrinsics: nlenc.PutXxx(b, v) stores v in host (little-endian) order THROUGH the slice b;
+// only accepted as a statement whose first argument is (a constant sub-slice of) a variable.
+type putIntrinsic struct {
+	coq  string
+	size int64
+	val  gtype
+}
+
+var putIntrinsics = map[string]putIntrinsic{
+	nlencPath + ".PutUint8":  {"nlenc_PutUint8", 1, gtype{k: kInt, bits: 8}},
+	nlencPath + ".PutUint16": {"nlenc_PutUint16", 2, gtype{k: kInt, bits: 16}},
+	nlencPath + ".PutUint32": {"nlenc_PutUint32", 4, gU32},
+	nlencPath + ".PutUint64": {"nlenc_PutUint64", 8, gU64},
+	nlencPath + ".PutInt32":  {"nlenc_PutInt32", 4, gtype{k: kInt, bits: 32, signed: true}},
+}
+
+func putIntrinsicOf(f *types.Func) (putIntrinsic, bool) {
+	if f == nil || f.Pkg() == nil || f.Type().(*types.Signature).Recv() != nil {
+		return putIntrinsic{}, false
+	}
+	in, ok := putIntrinsics[f.Pkg().Path()+"."+f.Name()]
+	return in, ok
+}
+
+var intrinsics = map[string]intrinsic{
+	"math.Max":             {"go_math_Max", []gtype{gF64, gF64}, gF64, 0},
+	"math.Min":             {"go_math_Min", []gtype{gF64, gF64}, gF64, 0},
+	"math.IsNaN":           {"go_math_IsNaN", []gtype{gF64}, gBool, 0},
+	"math.Float32bits":     {"go_math_Float32bits", []gtype{gF32}, gU32, 0},
+	"math.Float32frombits": {"go_math_Float32frombits", []gtype{gU32}, gF32, 0},
+	"math.Float64bits":     {"go_math_Float64bits", []gtype{gF64}, gU64, 0},
+	"math.Float64frombits": {"go_math_Float64frombits", []gtype{gU64}, gF64, 0},
+	nlencPath + ".Uint8":   {"nlenc_Uint8", []gtype{gByts}, gtype{k: kInt, bits: 8}, 1},
+	nlencPath + ".Uint16":  {"nlenc_Uint16", []gtype{gByts}, gtype{k: kInt, bits: 16}, 2},
+	nlencPath + ".Uint32":  {"nlenc_Uint32", []gtype{gByts}, gU32, 4},
+	nlencPath + ".Uint64":  {"nlenc_Uint64", []gtype{gByts}, gU64, 8},
+	nlencPath + ".Int32":   {"nlenc_Int32", []gtype{gByts}, gtype{k: kInt, bits: 32, signed: true}, 4},
+}
+
+func intrinsicOf(f *types.Func) (intrinsic, bool) {
+	if f == nil || f.Pkg() == nil || f.Type().(*types.Signature).Recv() != nil {
+		return intrinsic{}, false
+	}
+	in, ok := intrinsics[f.Pkg().Path()+"."+f.Name()]
+	return in, ok
+}
+
+// unsafeLoad recognises  *(*T)(unsafe.Pointer(&x))  with x a local variable or parameter: the
+// reinterpretation of the first sizeof(T) bytes of x (little-endian host: the LOW bits).
+// Accepted (x's type -> T): uint64 -> float32, uint32 -> float32, uint64 -> float64,
+// float32 -> uint32, float64 -> uint64.
+func (c *fctx) unsafeLoad(x *ast.StarExpr) (string, bool) {
+	conv, ok := ast.Unparen(x.X).(*ast.CallExpr)
+	if !ok || len(conv.Args) != 1 {
+		return "", false
+	}
+	if ftv, ok := c.info.Types[conv.Fun]; !ok || !ftv.IsType() {
+		return "", false
+	}
+	if _, ok := c.info.TypeOf(conv.Fun).(*types.Pointer); !ok {
+		return "", false
+	}
+	up, ok := ast.Unparen(conv.Args[0]).(*ast.CallExpr)
+	if !ok || len(up.Args) != 1 {
+		return "", false
+	}
+	if b, ok := c.info.TypeOf(up.Fun).(*types.Basic); !ok || b.Kind() != types.UnsafePointer {
+		return "", false
+	}
+	if ftv, ok := c.info.Types[up.Fun]; !ok || !ftv.IsType() {
+		return "", false
+	}
+	addr, ok := ast.Unparen(up.Args[0]).(*ast.UnaryExpr)
+	if !ok || addr.Op != token.AND {
+		c.t.failf(x.Pos(), "unsafe.Pointer of something that is not the address of a variable")
+	}
+	id, ok := ast.Unparen(addr.X).(*ast.Ident)
+	if !ok {
+		c.t.failf(x.Pos(), "unsafe.Pointer of something that is not the address of a variable")
+	}
+	name, ok := c.vars[c.info.Uses[id]]
+	if !ok {
+		c.t.failf(x.Pos(), "unsafe.Pointer(&%s): not a local variable or parameter", id.Name)
+	}
+	from, to := c.typeOf(id), c.typeOf(x)
+	if from.ptr {
+		c.t.failf(x.Pos(), "unsafe.Pointer(&%s): %s is a pointer", id.Name, id.Name)
+	}
+	switch {
+	case from.k == kInt && !from.signed && from.bits == 64 && to.k == kFloat && to.bits == 32:
+		return fmt.Sprintf("(go_math_Float32frombits (go_unsafe_low 32 %s))", name), true
+	case from.k == kInt && !from.signed && from.bits == 32 && to.k == kFloat && to.bits == 32:
+		return fmt.Sprintf("(go_math_Float32frombits %s)", name), true
+	case from.k == kInt && !from.signed && from.bits == 64 && to.k == kFloat && to.bits == 64:
+		return fmt.Sprintf("(go_math_Float64frombits %s)", name), true
+	case from.k == kFloat && from.bits == 32 && to.k == kInt && !to.signed && to.bits == 32:
+		return fmt.Sprintf("(go_math_Float32bits %s)", name), true
+	case from.k == kFloat && from.bits == 64 && to.k == kInt && !to.signed && to.bits == 64:
+		return fmt.Sprintf("(go_math_Float64bits %s)", name), true
+	}
+	c.t.failf(x.Pos(), "unsafe reinterpretation of %s as %s is outside the subset", c.info.TypeOf(id), c.info.TypeOf(x))
+	panic("unreachable")
+}
+
+// isTypesTyp: the expression denotes the package-level table go/types.Typ.
+func (c *fctx) isTypesTyp(e ast.Expr) bool {
+	sel, ok := ast.Unparen(e).(*ast.SelectorExpr)
+	if !ok {
+		return false
+	}
+	v, ok := c.info.Uses[sel.Sel].(*types.Var)
+	return ok && v.Pkg() != nil && v.Pkg().Path() == "go/types" && v.Name() == "Typ" && !v.IsField()
+}
+
+// sliceParts: x[lo:hi] with constant bounds (lo defaults to 0; hi defaults to the length of an
+// array operand). Returns the translated operand, the bounds and the operand's type.
+func (c *fctx) sliceParts(x *ast.SliceExpr) (base string, lo, hi int64, g gtype) {
+	t := c.t
+	if x.Slice3 {
+		t.failf(x.Pos(), "3-index slice expression")
+	}
+	g = c.typeOf(x.X)
+	if g.k != kBytes && g.k != kArray {
+		t.failf(x.Pos(), "slicing of %s", c.info.TypeOf(x.X))
+	}
+	bound := func(e ast.Expr, def int64) int64 {
+		if e == nil {
+			if def < 0 {
+				t.failf(x.Pos(), "slice expression without a constant upper bound")
+			}
+			return def
+		}
+		tv := c.info.Types[e]
+		if tv.Value == nil {
+			t.failf(e.Pos(), "non-constant slice bound")
+		}
+		n, exact := constant.Int64Val(constant.ToInt(tv.Value))
+		if !exact || n < 0 {
+			t.failf(e.Pos(), "slice bound %s", tv.Value.ExactString())
+		}
+		return n
+	}
+	lo = bound(x.Low, 0)
+	if g.k == kArray {
+		hi = bound(x.High, g.n)
+		if hi > g.n {
+			t.failf(x.Pos(), "slice bound %d beyond the array", hi)
+		}
+	} else {
+		hi = bound(x.High, -1)
+	}
+	if lo > hi {
+		t.failf(x.Pos(), "inverted slice bounds %d:%d", lo, hi)
+	}
+	return c.expr(x.X), lo, hi, g
 }
 
 func (c *fctx) expr(e ast.Expr) string {
 	t := c.t
 	tv, ok := c.info.Types[e]
 	if ok && tv.Value != nil {
-		return c.constant(e, tv.Value)
+		out := c.constant(e, tv.Value)
+		// a named constant of a defined (enumeration) type keeps its name as a comment
+		var id *ast.Ident
+		switch x := ast.Unparen(e).(type) {
+		case *ast.Ident:
+			id = x
+		case *ast.SelectorExpr:
+			id = x.Sel
+		}
+		if id != nil {
+			if k, isConst := c.info.Uses[id].(*types.Const); isConst {
+				if _, named := k.Type().(*types.Named); named && k.Pkg() != nil {
+					return fmt.Sprintf("%s (* %s.%s *)", out, k.Pkg().Name(), k.Name())
+				}
+			}
+		}
+		return out
 	}
 	switch x := e.(type) {
 	case *ast.ParenExpr:
@@ -673,6 +1077,9 @@ func (c *fctx) expr(e ast.Expr) string {
 				return n // a pointer parameter IS the value it points to
 			}
 		}
+		if s, ok := c.unsafeLoad(x); ok {
+			return s
+		}
 		t.failf(x.Pos(), "dereference of something that is not a parameter")
 	case *ast.UnaryExpr:
 		g := c.typeOf(e)
@@ -682,6 +1089,9 @@ func (c *fctx) expr(e ast.Expr) string {
 		case token.SUB:
 			if g.k == kInt {
 				return wrap(g, "- "+c.expr(x.X))
+			}
+			if g.k == kFloat {
+				return fmt.Sprintf("(go_fneg%d %s)", g.bits, c.expr(x.X))
 			}
 		case token.XOR:
 			if g.k == kInt && g.signed {
@@ -698,30 +1108,49 @@ func (c *fctx) expr(e ast.Expr) string {
 	case *ast.BinaryExpr:
 		return c.binary(x.Pos(), x.Op, c.typeOf(e), x.X, x.Y, c.expr(x.X))
 	case *ast.IndexExpr:
+		if c.isTypesTyp(x.X) {
+			if i := c.typeOf(x.Index); i.k != kInt {
+				t.failf(x.Index.Pos(), "index of non-integer type")
+			}
+			if g := c.typeOf(e); g.k != kBasicTy {
+				t.failf(x.Pos(), "types.Typ[...] used at type %s", c.info.TypeOf(e))
+			}
+			return fmt.Sprintf("(go_types_Typ %s)", c.expr(x.Index))
+		}
 		a := c.typeOf(x.X)
-		if a.k != kArray {
+		if a.k != kArray && a.k != kBytes {
 			t.failf(x.Pos(), "indexing of %s", c.info.TypeOf(x.X))
 		}
 		if i := c.typeOf(x.Index); i.k != kInt {
 			t.failf(x.Index.Pos(), "index of non-integer type")
 		}
+		if a.k == kBytes {
+			return fmt.Sprintf("(bytes_get %s %s)", c.expr(x.X), c.expr(x.Index))
+		}
 		return fmt.Sprintf("(data_get %s %s)", c.expr(x.X), c.expr(x.Index))
+	case *ast.SliceExpr:
+		base, lo, hi, _ := c.sliceParts(x)
+		if g := c.typeOf(x.X); g.k != kBytes {
+			t.failf(x.Pos(), "slicing of %s in an expression", c.info.TypeOf(x.X))
+		}
+		return fmt.Sprintf("(bytes_slice %s %d %d)", base, lo, hi)
 	case *ast.SelectorExpr:
 		sel, ok := c.info.Selections[x]
-		if !ok || sel.Kind() != types.FieldVal || len(sel.Index()) != 1 {
-			t.failf(x.Pos(), "selector %s is not a direct struct field", x.Sel.Name)
-		}
-		g := c.typeOf(x.X)
-		if g.k != kStruct {
-			t.failf(x.Pos(), "field selection on a value of type %s", c.info.TypeOf(x.X))
+		if !ok || sel.Kind() != types.FieldVal {
+			t.failf(x.Pos(), "selector %s is not a struct field", x.Sel.Name)
 		}
 		c.typeOf(e) // the field's own type must be in the subset
-		return fmt.Sprintf("(%s_%s %s)", g.st.coq, x.Sel.Name, c.expr(x.X))
+		out := c.expr(x.X)
+		for _, st := range t.fieldSteps(x.Pos(), sel) {
+			out = fmt.Sprintf("(%s_%s %s)", st.st.coq, st.fld.Name(), out)
+		}
+		return out
 	case *ast.CompositeLit:
 		g := c.typeOf(e)
 		given := map[string]string{}
 		for _, el := range x.Elts {
 			kv := el.(*ast.KeyValueExpr)
+			c.freshBytes(kv.Value.Pos(), c.typeOf(kv.Value), kv.Value)
 			given[kv.Key.(*ast.Ident).Name] = c.expr(kv.Value)
 		}
 		var parts []string
@@ -737,9 +1166,64 @@ func (c *fctx) expr(e ast.Expr) string {
 		if ftv, ok := c.info.Types[x.Fun]; ok && ftv.IsType() {
 			return c.conversion(x)
 		}
+		switch builtinOf(c.info, x) {
+		case "len":
+			if len(x.Args) != 1 {
+				t.failf(x.Pos(), "len with %d arguments", len(x.Args))
+			}
+			switch a := c.typeOf(x.Args[0]); a.k {
+			case kBytes:
+				return fmt.Sprintf("(bytes_len %s)", c.expr(x.Args[0]))
+			case kLen:
+				return c.expr(x.Args[0]) // the slice IS its length
+			}
+			t.failf(x.Pos(), "len of %s", c.info.TypeOf(x.Args[0]))
+		case "make":
+			if g := c.typeOf(x); g.k != kBytes || len(x.Args) != 2 {
+				t.failf(x.Pos(), "make of something that is not []byte with a length")
+			}
+			ntv := c.info.Types[x.Args[1]]
+			if ntv.Value == nil {
+				t.failf(x.Pos(), "make with a non-constant length")
+			}
+			n, exact := constant.Int64Val(constant.ToInt(ntv.Value))
+			if !exact || n < 0 {
+				t.failf(x.Pos(), "make with length %s", ntv.Value.ExactString())
+			}
+			return fmt.Sprintf("(bytes_make %d)", n)
+		case "":
+		default:
+			t.failf(x.Pos(), "builtin %s in an expression", builtinOf(c.info, x))
+		}
 		callee := calleeOf(c.info, x)
 		if isErrorf(callee) {
 			return "err_nonnil"
+		}
+		if _, ok := putIntrinsicOf(callee); ok {
+			t.failf(x.Pos(), "%s.%s used as an expression", callee.Pkg().Name(), callee.Name())
+		}
+		if in, ok := intrinsicOf(callee); ok {
+			if len(x.Args) != len(in.params) || x.Ellipsis.IsValid() {
+				t.failf(x.Pos(), "call of %s.%s with %d arguments", callee.Pkg().Path(), callee.Name(), len(x.Args))
+			}
+			parts := []string{in.coq}
+			for i, a := range x.Args {
+				if have := c.typeOf(a); !have.same(in.params[i]) || have.ptr {
+					t.failf(a.Pos(), "argument %d of %s.%s has type %s", i+1, callee.Pkg().Path(), callee.Name(), c.info.TypeOf(a))
+				}
+				if in.sliceLen > 0 { // nlenc.UintNN panics unless the slice has exactly that many bytes
+					if sl, ok := ast.Unparen(a).(*ast.SliceExpr); ok {
+						if _, lo, hi, _ := c.sliceParts(sl); hi-lo != in.sliceLen {
+							t.failf(a.Pos(), "%s.%s on a slice of %d bytes panics", callee.Pkg().Name(), callee.Name(), hi-lo)
+						}
+					}
+				}
+				parts = append(parts, c.expr(a))
+			}
+			if got := c.typeOf(x); !got.same(in.res) {
+				t.failf(x.Pos(), "result type of %s.%s is not the expected one", callee.Pkg().Path(), callee.Name())
+			}
+			return "(" + strings.Join(parts, " ") + ")"
 		}
 		g := t.fns[funcKey(callee)]
 		if g == nil {
@@ -747,6 +1231,9 @@ func (c *fctx) expr(e ast.Expr) string {
 		}
 		if g.res == nil {
 			t.failf(x.Pos(), "call of the result-less function %s in an expression", g.display)
+		}
+		if len(g.results) > 1 || g.mut != nil {
+			t.failf(x.Pos(), "call of %s, which has several results or writes through a pointer besides returning a value", g.display)
 		}
 		return "(" + c.call(x, g) + ")"
 	}
@@ -764,7 +1251,7 @@ func (c *fctx) call(x *ast.CallExpr, g *fn) string {
 			a = u.X
 		}
 		have := c.typeOf(a)
-		if have.k != want.k || have.n != want.n || have.st != want.st || (have.k == kInt && (have.bits != want.bits || have.signed != want.signed)) {
+		if !have.same(want) {
 			c.t.failf(a.Pos(), "argument type does not match parameter %s of %s", g.params[i].v.Name(), g.display)
 		}
 		parts = append(parts, c.expr(a))
@@ -781,6 +1268,14 @@ func (c *fctx) conversion(x *ast.CallExpr) string {
 	switch {
 	case to.k == kInt && from.k == kInt:
 		return wrap(to, c.expr(x.Args[0]))
+	case to.k == kFloat && to.bits == 64 && from.k == kInt:
+		return fmt.Sprintf("(go_f64_of_int %s)", c.expr(x.Args[0]))
+	case to.k == kFloat && from.k == kFloat && to.bits == from.bits:
+		return c.expr(x.Args[0]) // every operation is already rounded to its static type
+	case to.k == kFloat && from.k == kFloat && to.bits == 32:
+		return fmt.Sprintf("(go_f32_of_f64 %s)", c.expr(x.Args[0]))
+	case to.k == kFloat && from.k == kFloat && to.bits == 64:
+		return fmt.Sprintf("(go_f64_of_f32 %s)", c.expr(x.Args[0]))
 	case to.k == kBool && from.k == kBool, to.k == kArray && from.k == kArray && to.n == from.n && !to.ptr && !from.ptr:
 		return c.expr(x.Args[0])
 	}
@@ -804,6 +1299,13 @@ func (c *fctx) binary(pos token.Pos, op token.Token, g gtype, xe, ye ast.Expr, x
 		if yg.k != kInt || yg.bits != g.bits || yg.signed != g.signed {
 			t.failf(pos, "operator %s: operands of different types", op)
 		}
+	}
+	if g.k == kFloat {
+		name, ok := map[token.Token]string{token.ADD: "go_fadd", token.SUB: "go_fsub", token.MUL: "go_fmul", token.QUO: "go_fdiv"}[op]
+		if !ok || g.bits != 64 || !xg.same(g) || !yg.same(g) {
+			t.failf(pos, "operator %s on %s is outside the subset (float64 + - * / only)", op, c.info.TypeOf(xe))
+		}
+		return fmt.Sprintf("(%s%d %s %s)", name, g.bits, xs, ys)
 	}
 	switch op {
 	case token.ADD:
@@ -872,6 +1374,21 @@ func (c *fctx) binary(pos token.Pos, op token.Token, g gtype, xe, ye ast.Expr, x
 			}
 			return fmt.Sprintf("(negb (Bool.eqb %s %s))", xs, ys)
 		}
+		if xg.k == kFloat && yg.k == kFloat && xg.bits == 64 && yg.bits == 64 {
+			switch op { // IEEE: every comparison with a NaN is false, except != which is true
+			case token.EQL:
+				return fmt.Sprintf("(go_feq64 %s %s)", xs, ys)
+			case token.NEQ:
+				return fmt.Sprintf("(negb (go_feq64 %s %s))", xs, ys)
+			case token.LSS:
+				return fmt.Sprintf("(go_flt64 %s %s)", xs, ys)
+			case token.LEQ:
+				return fmt.Sprintf("(go_fle64 %s %s)", xs, ys)
+			case token.GTR:
+				return fmt.Sprintf("(go_flt64 %s %s)", ys, xs)
+			}
+			return fmt.Sprintf("(go_fle64 %s %s)", ys, xs)
+		}
 		if xg.k != kInt || yg.k != kInt || xg.bits != yg.bits || xg.signed != yg.signed {
 			t.failf(pos, "comparison %s of operands outside the subset (%s, %s)", op, c.info.TypeOf(xe), c.info.TypeOf(ye))
 		}
@@ -925,23 +1442,33 @@ func (c *fctx) store(lhs ast.Expr, val string) (name, newval string) {
 		}
 		t.failf(x.Pos(), "store through a pointer that is not the written parameter")
 	case *ast.IndexExpr:
-		if a := c.typeOf(x.X); a.k != kArray {
+		a := c.typeOf(x.X)
+		if a.k != kArray && a.k != kBytes {
 			t.failf(x.Pos(), "indexed assignment to %s", c.info.TypeOf(x.X))
 		}
 		if i := c.typeOf(x.Index); i.k != kInt {
 			t.failf(x.Index.Pos(), "index of non-integer type")
 		}
+		if a.k == kBytes {
+			c.ownedBytes(x.X, "indexed store into")
+			return c.store(x.X, fmt.Sprintf("(bytes_set %s %s %s)", c.expr(x.X), c.expr(x.Index), val))
+		}
 		return c.store(x.X, fmt.Sprintf("(data_set %s %s %s)", c.expr(x.X), c.expr(x.Index), val))
 	case *ast.SelectorExpr:
 		sel, ok := c.info.Selections[x]
-		if !ok || sel.Kind() != types.FieldVal || len(sel.Index()) != 1 {
+		if !ok || sel.Kind() != types.FieldVal {
 			t.failf(x.Pos(), "assignment to selector %s", x.Sel.Name)
 		}
-		g := c.typeOf(x.X)
-		if g.k != kStruct {
-			t.failf(x.Pos(), "field assignment on a value of type %s", c.info.TypeOf(x.X))
+		// x.f = v with f reached through embedded fields: x.E.f = v, i.e. x = set_E x (set_f (E x) v)
+		steps := t.fieldSteps(x.Pos(), sel)
+		holders := []string{c.expr(x.X)}
+		for _, st := range steps[:len(steps)-1] {
+			holders = append(holders, fmt.Sprintf("(%s_%s %s)", st.st.coq, st.fld.Name(), holders[len(holders)-1]))
 		}
-		return c.store(x.X, fmt.Sprintf("(set_%s_%s %s %s)", g.st.coq, x.Sel.Name, c.expr(x.X), val))
+		for i := len(steps) - 1; i >= 0; i-- {
+			val = fmt.Sprintf("(set_%s_%s %s %s)", steps[i].st.coq, steps[i].fld.Name(), holders[i], val)
+		}
+		return c.store(x.X, val)
 	}
 	t.failf(lhs.Pos(), "assignment target of kind %T", lhs)
 	panic("unreachable")
@@ -963,6 +1490,95 @@ func (c *fctx) checkRoot(lhs ast.Expr) {
 			c.t.failf(lhs.Pos(), "internal: write through %s not found by the analysis", id.Name)
 		}
 	}
+}
+
+// ownedBytes: e is a local []byte VARIABLE of this function (not a parameter, not a field). Such a
+// variable can only have been initialised by make (freshBytes), so it is the only reference to its
+// array and a store through it is a functional update of that variable alone.
+func (c *fctx) ownedBytes(e ast.Expr, what string) {
+	id, ok := ast.Unparen(e).(*ast.Ident)
+	if !ok {
+		c.t.failf(e.Pos(), "%s a []byte that is not a local variable (possible aliasing)", what)
+	}
+	o := c.info.Uses[id]
+	for _, p := range c.f.params {
+		if types.Object(p.v) == o {
+			c.t.failf(e.Pos(), "%s the []byte parameter %s (the caller would see the store)", what, id.Name)
+		}
+	}
+	if _, ok := c.vars[o]; !ok {
+		c.t.failf(e.Pos(), "%s %s, which is not a local variable", what, id.Name)
+	}
+}
+
+// freshBytes: a []byte local may only be bound to a freshly made slice.
+func (c *fctx) freshBytes(pos token.Pos, g gtype, rhs ast.Expr) {
+	if g.k != kBytes {
+		return
+	}
+	if call, ok := ast.Unparen(rhs).(*ast.CallExpr); ok && builtinOf(c.info, call) == "make" {
+		return
+	}
+	c.t.failf(pos, "a []byte variable bound to something other than make(...) (aliasing is outside the subset)")
+}
+
+// putStmt: nlenc.PutXxx(b[lo:hi], v) / nlenc.PutXxx(b, v) as the functional update of the variable at
+// the root of the first argument (the callee stores THROUGH the slice, which shares b's array).
+func (c *fctx) putStmt(call *ast.CallExpr, callee *types.Func, put putIntrinsic) (name, newval string) {
+	t := c.t
+	if len(call.Args) != 2 || call.Ellipsis.IsValid() {
+		t.failf(call.Pos(), "%s.%s with %d arguments", callee.Pkg().Name(), callee.Name(), len(call.Args))
+	}
+	if have := c.typeOf(call.Args[1]); !have.same(put.val) {
+		t.failf(call.Args[1].Pos(), "value argument of %s.%s has type %s", callee.Pkg().Name(), callee.Name(), c.info.TypeOf(call.Args[1]))
+	}
+	val := c.expr(call.Args[1])
+	dst := ast.Unparen(call.Args[0])
+	c.checkRoot(dst)
+	if sl, ok := dst.(*ast.SliceExpr); ok {
+		base, lo, hi, g := c.sliceParts(sl)
+		if g.k != kBytes {
+			t.failf(dst.Pos(), "%s.%s through a slice of %s", callee.Pkg().Name(), callee.Name(), c.info.TypeOf(sl.X))
+		}
+		if hi-lo != put.size {
+			t.failf(dst.Pos(), "%s.%s on a slice of %d bytes panics", callee.Pkg().Name(), callee.Name(), hi-lo)
+		}
+		c.ownedBytes(sl.X, "store through")
+		return c.store(sl.X, fmt.Sprintf("(%s %s %d %s)", put.coq, base, lo, val))
+	}
+	if g := c.typeOf(dst); g.k != kBytes {
+		t.failf(dst.Pos(), "%s.%s on %s", callee.Pkg().Name(), callee.Name(), c.info.TypeOf(dst))
+	}
+	c.ownedBytes(dst, "store through")
+	return c.store(dst, fmt.Sprintf("(%s %s 0 %s)", put.coq, c.expr(dst), val))
+}
+
+// copyStmt: copy(dst, src) as a statement (the count is discarded). dst: a[lo:hi] with a an array
+// or []byte l-value and constant bounds (a[:] for an array), or a []byte variable; src: []byte.
+func (c *fctx) copyStmt(call *ast.CallExpr) (name, newval string) {
+	t := c.t
+	if len(call.Args) != 2 {
+		t.failf(call.Pos(), "copy with %d arguments", len(call.Args))
+	}
+	if g := c.typeOf(call.Args[1]); g.k != kBytes {
+		t.failf(call.Args[1].Pos(), "copy from %s", c.info.TypeOf(call.Args[1]))
+	}
+	src := c.expr(call.Args[1])
+	dst := ast.Unparen(call.Args[0])
+	c.checkRoot(dst)
+	if sl, ok := dst.(*ast.SliceExpr); ok {
+		base, lo, hi, g := c.sliceParts(sl)
+		if g.k == kBytes {
+			c.ownedBytes(sl.X, "copy into")
+		}
+		return c.store(sl.X, fmt.Sprintf("(bytes_copy_at %s %d %d %s)", base, lo, hi, src))
+	}
+	if g := c.typeOf(dst); g.k != kBytes {
+		t.failf(dst.Pos(), "copy to %s", c.info.TypeOf(dst))
+	}
+	c.ownedBytes(dst, "copy into")
+	b := c.expr(dst)
+	return c.store(dst, fmt.Sprintf("(bytes_copy_at %s 0 (bytes_len %s) %s)", b, b, src))
 }
 
 type cont func(ind int) string
@@ -988,16 +1604,38 @@ func (c *fctx) block(list []ast.Stmt, ind int, k cont) string {
 			}
 			return pad(ind) + c.f.mut.name
 		}
-		if len(s.Results) != 1 {
-			t.failf(s.Pos(), "return without exactly one value")
+		if len(s.Results) != len(c.f.results) {
+			t.failf(s.Pos(), "return with %d values for %d results", len(s.Results), len(c.f.results))
 		}
-		r := ast.Unparen(s.Results[0])
-		if c.f.res.k == kErr {
+		var vals []string
+		if c.f.mut != nil {
+			vals = append(vals, c.f.mut.name)
+		}
+		for i, re := range s.Results {
+			r := ast.Unparen(re)
+			want := c.f.results[i]
 			if tv := c.info.Types[r]; tv.IsNil() {
-				return pad(ind) + "err_nil"
+				switch want.k {
+				case kErr:
+					vals = append(vals, "err_nil")
+				case kBytes:
+					vals = append(vals, "bytes_nil")
+				case kLen:
+					vals = append(vals, "0")
+				default:
+					t.failf(r.Pos(), "nil returned at a type outside the subset")
+				}
+				continue
 			}
+			if have := c.typeOf(r); !have.same(want) {
+				t.failf(r.Pos(), "returned value of type %s does not have the result type", c.info.TypeOf(r))
+			}
+			vals = append(vals, c.expr(r))
 		}
-		return pad(ind) + c.expr(r)
+		if len(vals) == 1 {
+			return pad(ind) + vals[0]
+		}
+		return pad(ind) + "(" + strings.Join(vals, ", ") + ")"
 	case *ast.DeclStmt:
 		gd, ok := s.Decl.(*ast.GenDecl)
 		if !ok || (gd.Tok != token.VAR && gd.Tok != token.CONST) {
@@ -1023,6 +1661,7 @@ func (c *fctx) block(list []ast.Stmt, ind int, k cont) string {
 				}
 				val := t.zero(id.Pos(), g)
 				if len(vs.Values) != 0 {
+					c.freshBytes(id.Pos(), g, vs.Values[i])
 					val = c.expr(vs.Values[i])
 				}
 				lets = append(lets, pad(ind)+"let "+c.declare(o)+" := "+val+" in\n")
@@ -1049,9 +1688,11 @@ func (c *fctx) block(list []ast.Stmt, ind int, k cont) string {
 			if g.ptr || g.k == kErr {
 				t.failf(id.Pos(), "local variable of pointer or error type")
 			}
+			c.freshBytes(id.Pos(), g, s.Rhs[0])
 			return let(c.declare(o), val)
 		case token.ASSIGN:
 			c.checkRoot(lhs)
+			c.freshBytes(lhs.Pos(), c.typeOf(lhs), s.Rhs[0])
 			val := c.expr(s.Rhs[0])
 			name, nv := c.store(lhs, val)
 			return let(name, nv)
@@ -1079,13 +1720,24 @@ func (c *fctx) block(list []ast.Stmt, ind int, k cont) string {
 		if !ok {
 			t.failf(s.Pos(), "expression statement that is not a call")
 		}
+		if builtinOf(c.info, call) == "copy" {
+			name, nv := c.copyStmt(call)
+			return let(name, nv)
+		}
 		callee := calleeOf(c.info, call)
 		if callee == nil || isErrorf(callee) {
 			t.failf(s.Pos(), "call statement of a non-whitelisted function")
 		}
+		if put, ok := putIntrinsicOf(callee); ok {
+			name, nv := c.putStmt(call, callee, put)
+			return let(name, nv)
+		}
 		g := t.fns[funcKey(callee)]
 		if g == nil || g.mut == nil {
 			t.failf(s.Pos(), "call statement of a function that writes through no pointer")
+		}
+		if g.res != nil {
+			t.failf(s.Pos(), "call statement that discards the results of %s", g.display)
 		}
 		args := t.callArgs(c.info, call, g)
 		for i, p := range g.params {
@@ -1228,11 +1880,16 @@ func (t *translator) translate(f *fn) {
 		p.name = c.declare(p.v)
 		ps = append(ps, fmt.Sprintf("(%s : %s)", p.name, p.g.coq()))
 	}
-	ret := ""
-	if f.res != nil {
-		ret = f.res.coq()
-	} else {
-		ret = f.mut.g.coq()
+	var rts []string
+	if f.mut != nil {
+		rts = append(rts, f.mut.g.coq())
+	}
+	for _, g := range f.results {
+		rts = append(rts, g.coq())
+	}
+	ret := strings.Join(rts, " * ")
+	if len(rts) > 1 {
+		ret = "(" + ret + ")"
 	}
 	end := func(ind int) string {
 		if f.res != nil {
@@ -1405,6 +2062,7 @@ func run(root, out string, only []string) (status int) {
 					guard(func() {
 						t.claim(s.coq+"_"+fl.Name(), "field of "+s.qual)
 						t.claim("set_"+s.coq+"_"+fl.Name(), "setter of "+s.qual)
+						t.claim("zero_"+s.coq, "zero value of "+s.qual)
 					})
 				}
 			}
@@ -1429,7 +2087,11 @@ func run(root, out string, only []string) (status int) {
 	// output
 	var b strings.Builder
 	b.WriteString("(* GENERATED by /verif/harness/translate/main.go from the Go source tree at\n     " + root + "\n   DO NOT EDIT. Semantics of the operators: CanVerif.Translate.GoSem. *)\n")
-	b.WriteString("From Coq Require Import ZArith List Bool.\nFrom CanVerif Require Import Translate.GoSem.\nImport ListNotations.\nOpen Scope Z_scope.\nOpen Scope bool_scope.\n\n")
+	b.WriteString("From Coq Require Import ZArith List Bool.\nFrom CanVerif Require Import Translate.GoSem.\n")
+	if t.usesFloat {
+		b.WriteString("From CanVerif Require Import Translate.GoSemFloat.\n")
+	}
+	b.WriteString("Import ListNotations.\nOpen Scope Z_scope.\nOpen Scope bool_scope.\n\n")
 	// records: a struct may contain another one; emit in dependency order
 	emitted := map[*structInfo]bool{}
 	var emit func(s *structInfo)
@@ -1462,6 +2124,7 @@ func run(root, out string, only []string) (status int) {
 			g := t.classify(f.Pos(), f.Type())
 			fmt.Fprintf(&b, "Definition set_%s_%s (r : %s) (v : %s) : %s :=\n  {| %s |}.\n", s.coq, f.Name(), s.coq, g.coq(), s.coq, strings.Join(parts, "; "))
 		}
+		fmt.Fprintf(&b, "Definition zero_%s : %s :=\n  %s.\n", s.coq, s.coq, t.zero(token.NoPos, gtype{k: kStruct, st: s}))
 		b.WriteString("\n")
 		fmt.Printf("RECORD %s %d fields\n", s.coq, len(s.fields))
 	}
